@@ -306,13 +306,13 @@ def run(tier: str, seed: int) -> Report:
     extra_cases = gen_cases + [s[0] for s in synth]
     for off in range(0, len(cases), wave):
         chunk = cases[off:off + wave]
-        res = L.run_children(chunk, vs, chunk=4 if tier == "quick" else 8, workers=6)
+        res = L.run_children(chunk, vs, chunk=4 if tier == "quick" else 6, workers=8)
         tcs = _build_tcases(chunk, vs, res)
         if off == 0:
             tcs_all = tcs + extra_cases
         else:
             tcs_all = tcs
-        verd, results = L.validate(tcs_all, workers=5)
+        verd, results = L.validate(tcs_all, workers=6)
         tlc_results += results
         _judge_cases(rep, chunk, vs, res, verd)
         _stats(rep, chunk, res, vs[0]["name"])
